@@ -335,7 +335,8 @@ def _input_wrappers(ck, repo):
     if len(item_call) == 1 and len(single) == 1:
         ic = item_call[0]
         comp = fv.in_comprehension(ic)
-        gen = comp.generators[0] if comp is not None else None
+        loops_ = fv.enclosing_loops(ic)
+        gen = comp.generators[0] if comp is not None else (loops_[-1] if loops_ else None)  # a comprehension or a plain loop
         ok = gen is not None and unparse(gen.iter) == f"enumerate({p[2]})" and isinstance(gen.target, ast.Tuple)
         if ok:
             idx, item = [unparse(e) for e in gen.target.elts]
